@@ -660,7 +660,15 @@ func RunCheck(o CheckOpts) int {
 				lines = append(lines, fmt.Sprintf("UNDECIDED property=%s obligation=%s reason=%s", o.Property, ob.Name, ob.Reason))
 				continue
 			}
-			if concreteFail := ob.Result == "failed" && ob.failing != nil && ob.failing.Goal == "false" && concreteKind(ob.Kind); len(newAbs) > 0 && (ledgerObs != nil) && !concreteFail {
+			concreteFail := ob.Result == "failed" && ob.failing != nil && ob.failing.Goal == "false" && concreteKind(ob.Kind)
+			for _, n := range newAbs {
+				// a package function without contract that could not be inlined may
+				// itself make the calls the executor is counting
+				if strings.HasPrefix(n, "callee ") {
+					concreteFail = false
+				}
+			}
+			if len(newAbs) > 0 && (ledgerObs != nil) && !concreteFail {
 				ob.Result = "undecided"
 				ob.Reason = "path crosses abstraction points not present on the pinned tree: " + strings.Join(newAbs, "; ")
 				undecided++
